@@ -1,4 +1,5 @@
 import Gonuts.Lemmas.MintSeq
+import Gonuts.Lemmas.MintConc
 /-!
   C01 — no double spend.  Theorems over `Model.Mint` (the mint after the `fix:` commits).
 
@@ -139,5 +140,95 @@ example : (applyOp (initSess 0 false {}) (.swap [k0] [o0] none)).2 matches .sigs
 example : ysOf s1.w.db.spent = [7] := by decide
 example : (applyOp s1 (.swap [{ k0 with witness := 5, amount := 4 }] [o1] none)).2 matches .sigs (.error _) := by decide
 end example_
+
+/-! ## Concurrent requests, injected storage errors, process kills
+
+  `CEvt` (Model/MintConc.lean) is the event alphabet the property quantifies over: requests become threads, the
+  scheduler lets one thread perform ONE storage / Lightning call at a time, a call may fail, the process may be killed.
+  What holds for EVERY such event sequence — with no assumption on the number of threads, the schedule or the inputs —
+  is the storage-level half of the property; the request-level half ("at most one of two overlapping requests is
+  accepted") is FALSE of the code (`schedules_full_false`), and holds when requests do not overlap (the theorems
+  above). -/
+
+/-- SPENT forever: under any interleaving, fault and crash history. -/
+theorem spent_forever_schedule (row : PRow) (c : CSess) (evts : List CEvt) (h : row ∈ c.s.w.db.spent) :
+    row ∈ (runCEvts c evts).s.w.db.spent := runCEvts_db (spent_mono_db row) c evts h
+
+/-- The spent table never holds a secret twice, and the pending table never holds a secret twice: under any
+    interleaving the unique keys of the two tables are the last line of defence and they always hold. -/
+theorem spent_once_schedule (c : CSess) (evts : List CEvt) (h : (ysOf c.s.w.db.spent).Nodup) :
+    (ysOf (runCEvts c evts).s.w.db.spent).Nodup := runCEvts_db spent_nodup_db c evts h
+
+theorem locked_once_schedule (c : CSess) (evts : List CEvt) (h : (ysOf c.s.w.db.pending).Nodup) :
+    (ysOf (runCEvts c evts).s.w.db.pending).Nodup := runCEvts_db pending_nodup_db c evts h
+
+theorem spent_once_from_start (fee : UInt64) (pct : Bool) (cfg : Cfg) (evts : List CEvt) :
+    (ysOf (runCEvts (initC fee pct cfg) evts).s.w.db.spent).Nodup :=
+  spent_once_schedule _ evts (by simp [initC, initSess, ysOf])
+
+/-- Whatever happened before — overlapping requests, faults, kills — a request that arrives when nothing else is
+    running and presents a secret that is in the spent or the pending table is refused and changes nothing. -/
+theorem used_refused_after_anything (c : CSess) (evts : List CEvt) (row : PRow) (h : row ∈ c.s.w.db.spent)
+    (hf : NoFault (runCEvts c evts).s.w) (ps : List Proof) (outs : List BMsg) (v : Option E) (hp : ∃ p ∈ ps, p.secret = row.y) :
+    ∃ e, (applyOp (runCEvts c evts).s (.swap ps outs v)).2 = .sigs (.error e) ∧
+      (applyOp (runCEvts c evts).s (.swap ps outs v)).1.w.db = (runCEvts c evts).s.w.db := by
+  apply swap_rejects_used _ ps outs v hf
+  obtain ⟨p, hp, hpe⟩ := hp
+  refine ⟨p, hp, Or.inr ?_⟩
+  have := spent_forever_schedule row c evts h
+  simp only [ysOf, List.mem_map]
+  exact ⟨row, this, hpe.symm⟩
+
+/-- A successful outgoing payment for invoice `hash` is in the backend's ledger. -/
+def paidOut (c : CSess) (hash : Int) : Bool :=
+  c.s.w.ln.calls.any (fun x => (x.kind == "SendPayment" || x.kind == "PayPartialAmount") && x.hash == hash && x.ans == "succ")
+
+/-- Thread `tid` ACCEPTED its inputs: a swap that returned signatures, a melt that returned PAID / PENDING, or a
+    melt for whose invoice a successful payment went out. -/
+def accepted (c : CSess) (tid : Nat) : Bool :=
+  finishedOk c tid ||
+  match c.ops.find? (·.1 == tid) with
+  | some (_, .melt q _ _ _) =>
+    match c.s.w.db.meltQ.find? (fun m => (m.id : Int) == q) with
+    | some m => paidOut c m.hash
+    | none => false
+  | _ => false
+
+/-- The property's concurrent half, at full strength. -/
+def schedules_full : Prop :=
+  ∀ (evts : List CEvt) (t1 t2 sec : Nat), t1 ≠ t2 →
+    sec ∈ presented (runCEvts (initC 0 false {}) evts) t1 → sec ∈ presented (runCEvts (initC 0 false {}) evts) t2 →
+    accepted (runCEvts (initC 0 false {}) evts) t1 = true → accepted (runCEvts (initC 0 false {}) evts) t2 = true → False
+
+namespace witness
+
+/-- W1 (K1): a swap and a melt present secret 7.  The melt passes `verifyProofs` (3 calls), the swap runs to the end
+    (signature for B_ 1 issued, 7 SPENT), the melt continues: `AddPendingProofs` succeeds (other table), the invoice is
+    paid, `SaveProofs` fails on the unique key — too late. -/
+def w1 : List CEvt :=
+  [.seq (.extInvoice 0 8000), .seq (.meltQuote (.inv 0) true none), .script [.succ],
+   .spawn 1 (.swap [k0] [o0] none), .spawn 2 (.melt 0 [k0] [] false)] ++
+  List.replicate 3 (.step 2 false) ++ List.replicate 5 (.step 1 false) ++ List.replicate 8 (.step 2 false)
+
+theorem w1_swap_accepted : finishedOk (runCEvts (initC 0 false {}) w1) 1 = true := by decide
+theorem w1_melt_paid : paidOut (runCEvts (initC 0 false {}) w1) 0 = true := by decide
+theorem w1_spent_once : ysOf (runCEvts (initC 0 false {}) w1).s.w.db.spent = [7] := by decide
+
+/-- W2 (K2): two melts against two quotes present secret 7; the second passes `verifyProofs` before the first
+    locks the secret and adds its own lock after the first has settled. -/
+def w2 : List CEvt :=
+  [.seq (.extInvoice 0 8000), .seq (.extInvoice 1 8000), .seq (.meltQuote (.inv 0) true none), .seq (.meltQuote (.inv 1) true none),
+   .script [.succ, .succ], .spawn 1 (.melt 0 [k0] [] false), .spawn 2 (.melt 1 [k0] [] false)] ++
+  List.replicate 3 (.step 2 false) ++ List.replicate 10 (.step 1 false) ++ List.replicate 8 (.step 2 false)
+
+theorem w2_both_paid : paidOut (runCEvts (initC 0 false {}) w2) 0 = true ∧ paidOut (runCEvts (initC 0 false {}) w2) 1 = true := by decide
+end witness
+
+/-- The concurrent half of C01 is false of the code as it is: two overlapping requests can both be accepted
+    (known findings `C01/sched/swap||melt/…`, `C01/sched/melt||melt/…`; replayed against the real mint by stream
+    `mint-sched`, whose every step the model agrees with). -/
+theorem schedules_full_false : ¬ schedules_full := by
+  intro h
+  exact h witness.w1 1 2 7 (by decide) (by decide) (by decide) (by decide) (by decide)
 
 end Gonuts.Props.C01
